@@ -29,6 +29,7 @@ EXPLANATION = (
     "of message formats, blobs and primitives are compared with each other (structural content of encode-then-decode = "
     "identity)."
 )
+SHARED = [('C04', ['R3'], 'encoding then decoding is the identity: the encoder writes the message as given (timestamp 0 included)')]
 ASSUMPTIONS = ["Kafka protocol guide layouts as transcribed in afkverif/kafka_schema.py", "gzip round-trips bytes exactly"]
 
 
